@@ -145,6 +145,10 @@ int c_var2h(int nvalvar, int nvalh,
             /* Loop */
             varindex++;
             if(varindex+1>=nvalvar) {
+                /* Data end before the end of the period:
+                 * the period is not covered */
+                if(t2<end)
+                    miss=1;
                 break;
             }
 
